@@ -119,6 +119,8 @@ func (s *Service) handleSubmitSyncCommitteeContributionsError(ctx context.Contex
 		}
 		for i := range len(resp.Failures) {
 			switch {
+			case resp.Failures[i] == nil:
+				s.log.Trace().Str("beacon_node_address", address).Int("entry", i).Msg("Empty failure entry")
 			case strings.HasPrefix(resp.Failures[i].Message, "Verification: AggregatorAlreadyKnown"):
 				s.log.Trace().Str("beacon_node_address", address).Int("index", resp.Failures[i].Index).Msg("Contribution and proof already received for that slot; ignoring")
 				allowedFailures++
@@ -126,7 +128,7 @@ func (s *Service) handleSubmitSyncCommitteeContributionsError(ctx context.Contex
 				s.log.Trace().Str("beacon_node_address", address).Int("index", resp.Failures[i].Index).Str("msg", resp.Failures[i].Message).Msg("Real lighthouse error")
 			}
 		}
-		if len(resp.Failures) == allowedFailures {
+		if len(resp.Failures) > 0 && len(resp.Failures) == allowedFailures {
 			s.log.Trace().Str("beacon_node_address", address).Msg("Errors from node are allowable; no error")
 			return nil
 		}
